@@ -582,6 +582,7 @@ impl Oracle for Converge {
 // Restart from the byte store: C26
 
 pub struct RestartOracle {
+    cur: Snap,
     pre: Option<(Snap, bool)>,
     saved_fresh: bool,
     bytes_compared: u64,
@@ -593,12 +594,60 @@ pub struct RestartOracle {
 
 impl RestartOracle {
     pub fn new() -> RestartOracle {
-        RestartOracle { pre: None, saved_fresh: false, bytes_compared: 0, clean_compared: 0, dirty_compared: 0, skipped_stale: 0, last: 0 }
+        RestartOracle { cur: Snap::new(), pre: None, saved_fresh: false, bytes_compared: 0, clean_compared: 0, dirty_compared: 0, skipped_stale: 0, last: 0 }
     }
 }
 
+fn workbook_field_diff(a: &ironcalc_base::types::Workbook, b: &ironcalc_base::types::Workbook) -> String {
+    let mut out = Vec::new();
+    if a.shared_strings != b.shared_strings {
+        out.push("shared_strings".to_string());
+    }
+    if a.defined_names != b.defined_names {
+        out.push("defined_names".to_string());
+    }
+    if a.styles != b.styles {
+        out.push("styles".to_string());
+    }
+    if a.name != b.name || a.settings != b.settings || a.metadata != b.metadata {
+        out.push("name/settings/metadata".to_string());
+    }
+    if a.tables != b.tables || a.views != b.views || a.theme != b.theme {
+        out.push("tables/views/theme".to_string());
+    }
+    if a.worksheets.len() != b.worksheets.len() {
+        out.push("worksheets.len".to_string());
+    }
+    for (i, (x, y)) in a.worksheets.iter().zip(b.worksheets.iter()).enumerate() {
+        if x.sheet_data != y.sheet_data {
+            out.push(format!("worksheets[{i}].sheet_data"));
+        }
+        if x.shared_formulas != y.shared_formulas {
+            out.push(format!("worksheets[{i}].shared_formulas"));
+        }
+        if x.cols != y.cols || x.rows != y.rows {
+            out.push(format!("worksheets[{i}].cols/rows"));
+        }
+        if x.conditional_formatting != y.conditional_formatting || x.links != y.links {
+            out.push(format!("worksheets[{i}].cf/links"));
+        }
+        if x.views != y.views {
+            out.push(format!("worksheets[{i}].views"));
+        }
+        if x.dimension != y.dimension || x.name != y.name || x.sheet_id != y.sheet_id || x.state != y.state || x.color != y.color
+            || x.merge_cells != y.merge_cells || x.comments != y.comments || x.frozen_rows != y.frozen_rows || x.frozen_columns != y.frozen_columns
+            || x.show_grid_lines != y.show_grid_lines
+        {
+            out.push(format!("worksheets[{i}].other"));
+        }
+    }
+    out.join(", ")
+}
+
 impl Oracle for RestartOracle {
-    fn init(&mut self, _w: &World) {}
+    fn init(&mut self, w: &World) {
+        self.cur = snapshot(&w.primary);
+    }
     fn before(&mut self, w: &World, ev: &Ev) {
         match ev {
             Ev::Restart { .. } => {
@@ -622,35 +671,28 @@ impl Oracle for RestartOracle {
             Ev::Save => {
                 // (1) decode(encode(workbook)) == workbook, field by field (derived PartialEq)
                 self.bytes_compared += 1;
+                // the stored form is the bitcode encoding of the workbook: decoding it must give
+                // the identical workbook (Model::from_bytes additionally re-parses and evaluates
+                // conditional formats, which is judged by the restart comparisons)
                 let bytes = w.primary.um.to_bytes();
-                match ironcalc_base::Model::from_bytes(&bytes, w.primary.lang) {
-                    Ok(m) => {
-                        if m.workbook != w.primary.model().workbook {
-                            let a = crate::snap::snapshot_model(&m, None, &crate::snap::SnapOpts { text: false });
-                            let b = crate::snap::snapshot_model(w.primary.model(), None, &crate::snap::SnapOpts { text: false });
-                            let d = diff(&b, &a);
-                            if d.is_empty() {
-                                return Verdict::Violation(Violation::simple(
-                                    "bytes-identical",
-                                    idx,
-                                    kind,
-                                    "workbook",
-                                    "from_bytes(to_bytes(m)).workbook != m.workbook (a field outside the observable snapshot differs)".into(),
-                                ));
-                            }
-                            return Verdict::Violation(Violation::from_diff(
+                match bitcode::decode::<ironcalc_base::types::Workbook>(&bytes) {
+                    Ok(wb) => {
+                        if wb != w.primary.model().workbook {
+                            return Verdict::Violation(Violation::simple(
                                 "bytes-identical",
                                 idx,
-                                idx,
                                 kind,
-                                d,
-                                "from_bytes(to_bytes(m)).workbook != m.workbook".into(),
+                                "workbook",
+                                format!("decode(to_bytes(m)) != m.workbook: {}", workbook_field_diff(&w.primary.model().workbook, &wb)),
                             ));
                         }
                     }
                     Err(e) => {
-                        return Verdict::Violation(Violation::simple("bytes-load", idx, kind, "result", format!("from_bytes(to_bytes(m)) failed: {e}")));
+                        return Verdict::Violation(Violation::simple("bytes-load", idx, kind, "result", format!("decode(to_bytes(m)) failed: {e}")));
                     }
+                }
+                if let Err(e) = ironcalc_base::Model::from_bytes(&bytes, w.primary.lang) {
+                    return Verdict::Violation(Violation::simple("bytes-load", idx, kind, "result", format!("from_bytes(to_bytes(m)) failed: {e}")));
                 }
                 Verdict::Ok
             }
@@ -663,6 +705,7 @@ impl Oracle for RestartOracle {
                 }
                 let now = snapshot(&w.primary);
                 self.last = crate::snap::hash(&now);
+                self.cur = now.clone();
                 if *dirty {
                     // only durable state survives: the workbook is the one saved
                     if !self.saved_fresh {
@@ -707,7 +750,17 @@ impl Oracle for RestartOracle {
                     }
                 }
             }
-            _ => Verdict::Ok,
+            _ => {
+                if ev.is_user_op() && res.result.is_err() {
+                    let now = snapshot(&w.primary);
+                    if now != self.cur {
+                        return Verdict::Abandon(Abandon(format!("rejected {kind} changed the workbook (C04's business)")));
+                    }
+                } else if !ev.is_world() {
+                    self.cur = snapshot(&w.primary);
+                }
+                Verdict::Ok
+            }
         }
     }
     fn exercised(&self) -> u64 {
